@@ -7,9 +7,9 @@ PROP = "C12"
 TARGETS = ["NetqasmVerif.Props.C12"]
 M = "NetqasmVerif.Props.C12"
 THEOREMS = [(M, "NQ.C12." + n) for n in [
-    "exactly_once", "consumed_by_oldest_in_order", "retired_iff_complete", "consume_effect",
-    "keep_only_when_free", "unit_never_overwritten", "wait_sound", "handlePending_quiescent",
-    "scenario_nonvacuous"]]
+    "exactly_once", "exactly_once_count", "consumed_by_oldest_in_order", "consumed_by_head",
+    "retired_iff_complete", "consume_effect", "keep_only_when_free", "unit_never_overwritten",
+    "wait_sound", "handlePending_quiescent", "scenario_nonvacuous", "measure_overtakes_deferred_keep"]]
 TRANSLATORS = []
 LEVEL_TEXT = ('Lean theorems over a transition system of the controller\'s EPR bookkeeping (request queues per '
               '(remote node, purpose, role), pending list, result arrays, unit modules, live subroutines; actions: '
